@@ -206,6 +206,37 @@ def run_case(case, workdir):
                         or not (np.allclose(r["x"], ex_, rtol=1e-12, atol=0) and np.allclose(r["y"], ey_, rtol=1e-12, atol=0)):
                     rec.fail("history_dependent", dict(sub, call=k), "call %d on the same object differs from the covering grid / its coordinates "
                              "(the caller changed the arrays of the earlier calls in place)" % k)
+    # history on ONE Mandoline object: a call that FAILS part-way (a binary file of the finest level is not there yet), then the
+    # same call once the plotfile is complete - it must return the covering grid, as a fresh object does
+    if ref.nlevels >= 2:
+        from ..refmodel import ParsedPlot
+        top = ref.nlevels - 1
+        pl_ = ParsedPlot(path).levels[top]
+        victim = os.path.join(pl_.dir, sorted(set(pl_.files))[-1])
+        aside = os.path.join(workdir, "victim.aside")
+        cov, lvl = ref.covering(with_level=True)
+        for serial in (True, False):
+            with vpool.controlled():
+                with poisoned(MODS, 0):
+                    def retry():
+                        m = Mandoline(path, fields=["all"], serial=serial, verbose=0)
+                        os.rename(victim, aside)
+                        try:
+                            first = call(lambda: m.slice(fformat="return"))
+                        finally:
+                            os.rename(aside, victim)
+                        return first[0], m.slice(fformat="return")
+                    st, val = call(retry)
+            rec.exe([dh, "retry_after_failure", serial], nontrivial=True, trans=2)
+            sub = {"history": "slice() failed part-way on this object (a finest-level binary file was missing), then the same call", "serial": serial}
+            if st == "exc":
+                rec.fail("history_raised", sub, exc_text(val))
+            else:
+                if val[0] != "exc":
+                    rec.fail("failure_not_reported", sub, "the call with a missing binary file returned normally")
+                r = val[1]
+                if not all(bits_equal(r[nm], cov[..., names.index(nm)].T) for nm in names) or not np.array_equal(np.asarray(r["grid_level"]), lvl.T):
+                    rec.fail("history_dependent", sub, "the call after the failed one differs from the covering grid")
     rec.sample({"desc": desc, "ops": "slice(fformat='return') x field lists x limits x serial/parallel"})
     return rec.result()
 
